@@ -162,6 +162,52 @@ func FullOp(t *chainx.Tree, nd *chainx.Node) (op, out string) {
 	return ask.String(), strings.TrimRight(full.String(), " ")
 }
 
+// ancSample: the blocks whose ancestor timestamp is asked after a submission of a long pre-Oak
+// history: the last block of the batch, the tip, and the blocks of the batch at retarget heights.
+func ancSample(t *chainx.Tree, nd *chainx.Node, batch []int) []int {
+	seen := map[int]bool{}
+	var out []int
+	add := func(id int) {
+		if id <= 0 || seen[id] {
+			return
+		}
+		if _, ok := nd.CM.State(t.Blocks[id].Block.ID()); ok {
+			seen[id] = true
+			out = append(out, id)
+		}
+	}
+	add(batch[len(batch)-1])
+	if tid, ok := t.Lookup(nd.CM.Tip().ID); ok {
+		add(tid)
+	}
+	for _, id := range batch {
+		if h := t.Blocks[id].Height; (h+1)%500 == 0 || h%500 == 0 {
+			add(id)
+		}
+	}
+	return out
+}
+
+// AncOp asks the model which block's record DBStore.AncestorTimestamp(id) reads (Model/Ancestor)
+// and answers for the implementation: the block of id's own ancestry whose timestamp the store
+// returned (the ancestry's timestamps are strictly increasing, so the timestamp names the block).
+func AncOp(t *chainx.Tree, nd *chainx.Node, id int) (op, out string) {
+	op = fmt.Sprintf("anc 1000 %d", id)
+	ts, ok := nd.Store.AncestorTimestamp(t.Blocks[id].Block.ID())
+	if !ok {
+		return op, "not-found"
+	}
+	for x := id; ; x = t.Blocks[x].Parent {
+		if t.Blocks[x].Block.Timestamp.Equal(ts) {
+			return op, fmt.Sprint(x)
+		}
+		if x == 0 {
+			break
+		}
+	}
+	return op, fmt.Sprintf("timestamp-of-no-ancestor:%d", ts.Unix())
+}
+
 // Submit calls AddBlocks, recovering a panic.
 func Submit(nd *chainx.Node, blocks []types.Block) (res string) {
 	defer func() {
@@ -399,6 +445,10 @@ func RunTreeModes(r *vh.Run, name string, t *chainx.Tree, sched [][]int, modes [
 		AuditStoredStates(c, t, nd, tainted)
 		if len(t.Blocks) <= 300 {
 			c.Op(FullOp(t, nd))
+		} else if t.Net.N.HardforkOak.Height > 2000 {
+			for _, id := range ancSample(t, nd, batch) {
+				c.Op(AncOp(t, nd, id))
+			}
 		}
 		if afterTip != beforeTip {
 			// a reorg proper = the old tip is not an ancestor of the new one
